@@ -40,3 +40,19 @@ impl Debug for TinyLFUError {
 
 #[cfg(feature = "std")]
 impl std::error::Error for TinyLFUError {}
+
+// ---------------------------------------------------------------------------------------------
+// verification hooks (feature `verif-hooks`): the error type is not nameable from outside the
+// crate, so expose (variant index, payload) for checks.
+#[cfg(feature = "verif-hooks")]
+#[doc(hidden)]
+impl TinyLFUError {
+    /// (0, width) | (1, samples) | (2, ratio)
+    pub fn verif_code(&self) -> (u8, f64) {
+        match self {
+            TinyLFUError::InvalidCountMinWidth(v) => (0, *v as f64),
+            TinyLFUError::InvalidSamples(v) => (1, *v as f64),
+            TinyLFUError::InvalidFalsePositiveRatio(v) => (2, *v),
+        }
+    }
+}
